@@ -2151,6 +2151,7 @@ class SQLCompiler(Compiled):
 
         replacement_expressions: Dict[str, Any] = {}
         to_update_sets: Dict[str, Any] = {}
+        literal_expanding: Dict[str, Any] = {}
 
         # notes:
         # *unescaped* parameter names in:
@@ -2175,12 +2176,14 @@ class SQLCompiler(Compiled):
 
             if parameter in self.literal_execute_params:
                 if escaped_name not in replacement_expressions:
+                    value = parameters.pop(escaped_name)
                     replacement_expressions[escaped_name] = (
                         self.render_literal_bindparam(
-                            parameter,
-                            render_literal_value=parameters.pop(escaped_name),
+                            parameter, render_literal_value=value
                         )
                     )
+                    if parameter.expanding:
+                        literal_expanding[escaped_name] = (parameter, value)
                 continue
 
             if parameter in self.post_compile_params:
@@ -2251,6 +2254,14 @@ class SQLCompiler(Compiled):
             # if POSTCOMPILE included a bind_expression, render that
             # around each element
             if m.group(2):
+                if key in literal_expanding:
+                    # rendered literals can contain ", " themselves; have
+                    # each element wrapped where it is rendered
+                    return self.render_literal_bindparam(
+                        literal_expanding[key][0],
+                        render_literal_value=literal_expanding[key][1],
+                        bind_expression_template=m.group(0),
+                    )
                 tok = m.group(2).split("~~")
                 be_left, be_right = tok[1], tok[3]
                 expr = ", ".join(
